@@ -313,6 +313,10 @@ var c10CLICmds = []struct {
 	{[]string{"bal", "-s", "absent~element"}, true, true, true},
 	{[]string{"reg", "-f", "absent~food"}, true, true, true},
 	{[]string{"report", "element-total", "absent~element"}, false, true, true},
+	// the element asked for is also the heading of a recipe (the first one of the book)
+	{[]string{"report", "element-total", "meal0"}, false, true, true},
+	{[]string{"bal", "-s", "meal0"}, true, true, true},
+	{[]string{"reg", "-s", "meal0"}, true, true, true},
 	// a period that holds no record: both files must still be read completely
 	{[]string{"reg", "-b", "2031/01/01"}, true, true, true},
 	{[]string{"bal", "-e", "1999/01/01"}, true, true, true},
